@@ -44,11 +44,20 @@ func (p *Point) Numeric() map[string]float64 {
 	return out
 }
 
+// ArrayElementsTwice switches Expand to what the pinned tree does (and its own TestSingleDB expects): every
+// array element after the first is inserted twice, because insert.go collects the additional values inside a
+// bytemap.Build callback that runs twice. Recorded as a known finding under C01; see DESIGN.md.
+var ArrayElementsTwice bool
+
 // Expand returns the points zenodb makes of p: p itself and, for every array value, one further point
 // per additional element with the same timestamp and dimensions and only that field ("separate
 // inserts for additional values", insert.go). Every one of them counts in _points.
 func (p *Point) Expand() []Point {
 	out := []Point{*p}
+	times := 1
+	if ArrayElementsTwice {
+		times = 2
+	}
 	var names []string
 	for k := range p.Vals {
 		names = append(names, k)
@@ -58,11 +67,15 @@ func (p *Point) Expand() []Point {
 		switch x := p.Vals[k].(type) {
 		case []float64:
 			for _, e := range x[1:] {
-				out = append(out, Point{ID: p.ID, TS: p.TS, Dims: p.Dims, Vals: map[string]interface{}{k: e}})
+				for n := 0; n < times; n++ {
+					out = append(out, Point{ID: p.ID, TS: p.TS, Dims: p.Dims, Vals: map[string]interface{}{k: e}})
+				}
 			}
 		case []int:
 			for _, e := range x[1:] {
-				out = append(out, Point{ID: p.ID, TS: p.TS, Dims: p.Dims, Vals: map[string]interface{}{k: e}})
+				for n := 0; n < times; n++ {
+					out = append(out, Point{ID: p.ID, TS: p.TS, Dims: p.Dims, Vals: map[string]interface{}{k: e}})
+				}
 			}
 		}
 	}
